@@ -514,7 +514,16 @@ class Run:
                         for k2, c, _ in kids(x):
                             stack.append(c)
                 if inside:
-                    return "timeout-handler-open-under-closed-act"
+                    # recorded finding: the rule fired while the act was open and the client closed the act afterwards.  A handler that was
+                    # STARTED beneath an act that was already closed is something else.
+                    hs = d
+                    while hs is not None and self.parent_of(hs, by_tid) is not None and self.parent_of(hs, by_tid)["tid"] != q["tid"]:
+                        hs = self.parent_of(hs, by_tid)
+                    ev = self.trace_events()
+                    i_started = next((i for i, (tid, st) in enumerate(ev) if tid == (hs or d)["tid"]), None)
+                    i_closed = next((i for i, (tid, st) in enumerate(ev) if tid == q["tid"] and st in TERMINAL), None)
+                    before = i_started is not None and i_closed is not None and i_started < i_closed
+                    return "timeout-handler-open-under-closed-act" if before else "timeout-handler-started-under-closed-act"
             q = self.parent_of(q, by_tid)
         # skip marks the siblings of the skipped act Skipped, but not what runs beneath them (e.g. a fired timeout handler step with an open act)
         for e in hist:
@@ -549,6 +558,10 @@ class Run:
                         if pd is not None and pt is not None and pd["tid"] == pt["tid"]:
                             return "open-sibling-branch-after-abort"
         return "%s=%s under %s" % (d["kind"], d["state"], ("%s=%s" % (p["kind"], p["state"])) if p is not None else "root")
+
+    def trace_events(self):
+        """(tid, new state name) of every state write so far, in order."""
+        return [(e["tid"], STATE_NAMES[e["new"]] if isinstance(e["new"], int) else e["new"]) for e in (self.W.trace or [])]
 
     def in_catch_subtree(self, nid):
         def walk(n, inside):
@@ -1253,6 +1266,9 @@ class ReplayRun(Run):
                     except ValueError:
                         return {"raw": t["err"]}
         return None
+
+    def trace_events(self):
+        return [(e["tid"], e["new"]) for e in (self.obs.get("trace") or [])]
 
     def q_c02(self, where):
         pass
